@@ -13,6 +13,8 @@ VF_EF(uint16_t, 8, float);
 VF_EF(uint64_t, 32, double);
 #endif
 #if VF_GROUP == 2
+VF_EF_SWEEP(uint64_t, 2, float);
+VF_EF_SWEEP(uint32_t, 1, float);
 VF_EF(uint32_t, 128, float);
 VF_EF(uint16_t, 1, double);
 #endif
